@@ -33,7 +33,7 @@ def obligations(tier):
         obs.append(Ob(id=f'sql.form1.a{lo}', module=M, func='sql_ok', params='a: int, wa: int, wb: int', args='1, a, wa, 0, wb, True',
                       pre=[f'{lo} <= a < {hi} and 0 <= wa < {nw} and 0 <= wb < {nw}'], timeout=T, group='two wrappers',
                       bound=f'W2(W1(atom)): atoms [{lo},{hi}) x {nw} x {nw} wrappers'))
-    was = [0, 7] if quick else list(range(nw))
+    was = [0] if quick else list(range(nw))
     for wa in was:
         for lo in range(0, na, 7):
             hi = min(na, lo + 7)
@@ -41,15 +41,19 @@ def obligations(tier):
                           pre=[f'{lo} <= a < {hi} and 0 <= b < {na} and 0 <= wb < {nbin}'], timeout=T, group='binary',
                           bound=f'BIN(W{wa}(atom a), atom b): a in [{lo},{hi}), {na} atoms b, {nbin} binary forms'))
     was = [0] if quick else [0, 4, 7, 8, 10]
+    bsel = '(b == 0 or b == 3 or b == 15)' if quick else f'0 <= b < {na}'
+    asel4 = '(a == 0 or a == 3 or a == 15)' if quick else f'0 <= a < {na}'
     for wa in was:
-        for lo in range(0, na, 4):
-            hi = min(na, lo + 4)
+        for lo in range(0, na, 5 if quick else 2):
+            hi = min(na, lo + (5 if quick else 2))
             obs.append(Ob(id=f'sql.form3.w{wa}.a{lo}', module=M, func='sql_ok', params='a: int, b: int, wb: int', args=f'3, a, {wa}, b, wb, True',
-                          pre=[f'{lo} <= a < {hi} and 0 <= b < {na} and 0 <= wb < {ndml}'], timeout=T, group='DML',
-                          bound=f'{ndml} INSERT / UPDATE / DELETE / FOR-INSERT forms built around W{wa}(atom a), a in [{lo},{hi}), and atom b'))
-            obs.append(Ob(id=f'sql.form4.w{wa}.a{lo}', module=M, func='sql_ok', params='a: int, b: int, wb: int', args=f'4, a, {wa}, b, wb, True',
-                          pre=[f'{lo} <= a < {hi} and 0 <= b < {ndml} and 0 <= wb < {nnest}'], timeout=T, group='nested DML',
-                          bound=f'a DML statement (one of {ndml}) in one of {nnest} nesting contexts around W{wa}(atom a), a in [{lo},{hi})'))
+                          pre=[f'{lo} <= a < {hi} and {bsel} and 0 <= wb < {ndml}'], timeout=T, group='DML',
+                          bound=f'{ndml} INSERT / UPDATE / DELETE / FOR-INSERT forms built around W{wa}(atom a), a in [{lo},{hi}), and atom b '
+                                + ('in {Person, Person.name, a constant}' if quick else '(any)')))
+        for lo in range(0, ndml, 2):
+            obs.append(Ob(id=f'sql.form4.w{wa}.d{lo}', module=M, func='sql_ok', params='a: int, b: int, wb: int', args=f'4, a, {wa}, b, wb, True',
+                          pre=[f'{asel4} and {lo} <= b < {lo + 2} and 0 <= wb < {nnest}'], timeout=T, group='nested DML',
+                          bound=f'DML statements #{lo},{lo + 1} in one of {nnest} nesting contexts around W{wa}(atom a)'))
     # known finding F19 re-derived on its witness family
     obs.append(Ob(id='sql.F19', module=M, func='sql_ok', params='a: int, b: int', args='4, a, 0, b, 12, False',
                   pre=[f'0 <= a < 3 and 0 <= b < {ndml}'], timeout=T, group='F19', finding='F19',
@@ -127,7 +131,7 @@ def run(tier, only=''):
                      'from a fresh AST gives byte-identical SQL, argument map and type descriptors; (4) the same queries compiled in '
                      'two interpreters with different hash seeds give identical SQL.'),
         bounds={'atoms': na, 'wrappers': nw, 'binary forms': nbin, 'DML forms': ndml, 'nesting contexts': nnest,
-                'quick': 'form0 all; form1 all; form2 with first wrapper in {identity, filter}; form3/4 with identity wrapper',
+                'quick': 'form0 all; form1 all; form2 with identity first wrapper; form3/4 with identity wrapper and 3 second atoms',
                 'thorough': 'form2 with every first wrapper; form3/4 with 5 first wrappers'},
         stubs=['std stand-in + operators/functions transcribed from edb/lib/std (=, !=, ?=, IN, EXISTS, DISTINCT, UNION, ??, IF, AND, OR, NOT, '
                '+, ++, count, uuid_generate_v1mc, BaseObject.id with its default, FreeObject, json)',
